@@ -532,6 +532,9 @@ class BaseTrigger(ABC):
             )
             if not condition.is_satisfied_by(context):
                 return None
+        elif not condition.is_satisfied_by(context):
+            # Never executed before: the schedule still decides whether this poll is due
+            return None
 
         # Try to atomically update the last execution time
         success = self.store_last_cron_execution(
